@@ -1,14 +1,14 @@
 SPECIFICATION Spec
-CONSTANTS MaxPre = 1 MaxN = 3
+CONSTANTS MaxPre = 1 MaxN = 2
   PreAlphabet <- AlphaSmall
   Accs <- AccsSmall
   Posts <- PostsSmall
   FlowKinds = {"ctx"}
-  Drivers = {"run", "fill", "split"}
+  Drivers = {"run", "fill", "persist", "split"}
   Places = {"alone", "middle", "afterstop"}
   StopFlag = "per_branch"
   CopyMode = "per_branch"
-  Bufs <- BufQuick
+  Bufs <- BufOne
 INVARIANT DriversAgree
 INVARIANT FillReaches
 INVARIANT StopSound
